@@ -283,3 +283,733 @@ Proof.
 Qed.
 Lemma wft'_rename_variable t s u : wft t -> wft' (term_rename_variable t s u).
 Proof. intros H. split; [apply wft_rename_variable; exact H|apply nz_rename_variable]. Qed.
+
+(* ------------------------------------------------------------------ *)
+(** * Meaning: lin over association lists *)
+Section Meaning.
+Variable rho : val.
+
+Lemma lin_cons k q r : lin rho ((k, q) :: r) = Q2R q * rho k + lin rho r.
+Proof. reflexivity. Qed.
+
+Lemma lin_filter_nz l : lin rho (filter nzb l) = lin rho l.
+Proof.
+  induction l as [|[k q] r IH]; [reflexivity|].
+  cbn [filter]. unfold nzb at 1. cbn [snd]. destruct (qzero q) eqn:E; cbn [negb].
+  - rewrite lin_cons, IH. apply qzero_true in E. rewrite E. lra.
+  - rewrite !lin_cons, IH. reflexivity.
+Qed.
+
+Lemma lin_mk_term vs c : lin rho (tvars (mk_term vs c)) = lin rho vs.
+Proof. rewrite mk_term_vars. apply lin_filter_nz. Qed.
+
+Lemma sat_copy t : sat rho (term_copy t) <-> sat rho t.
+Proof. unfold sat, term_copy. rewrite lin_mk_term, mk_term_const. tauto. Qed.
+
+Lemma lin_dict_pop l v :
+  NoDup (keys l) -> lin rho (dict_pop l v) = lin rho l - Q2R (coef l v) * rho v.
+Proof.
+  unfold dict_pop. induction l as [|[k q] r IH]; intros Hn.
+  - cbn [filter lin]. rewrite coef_nil, Q2R_0. lra.
+  - inversion Hn as [|? ? Hk Hr]; subst. cbn [filter fst].
+    destruct (String.eqb k v) eqn:E; cbn [negb].
+    + apply String.eqb_eq in E. subst. rewrite coef_cons_eq, lin_cons, (IH Hr).
+      rewrite (coef_notin r v Hk), Q2R_0. lra.
+    + apply String.eqb_neq in E. rewrite coef_cons_neq by exact E.
+      rewrite !lin_cons, (IH Hr). lra.
+Qed.
+
+Lemma lin_dict_set l k q :
+  lin rho (dict_set l k q) = lin rho l - Q2R (coef l k) * rho k + Q2R q * rho k.
+Proof.
+  induction l as [|[k' q'] r IH]; cbn [dict_set].
+  - rewrite lin_cons. cbn [lin]. rewrite coef_nil, Q2R_0. lra.
+  - destruct (String.eqb k' k) eqn:E.
+    + apply String.eqb_eq in E. subst. rewrite coef_cons_eq, !lin_cons. lra.
+    + apply String.eqb_neq in E. rewrite coef_cons_neq by exact E. rewrite !lin_cons, IH. lra.
+Qed.
+
+Lemma coef_filter_nz l v : NoDup (keys l) -> Q2R (coef (filter nzb l) v) = Q2R (coef l v).
+Proof.
+  induction l as [|[k q] r IH]; intros Hn; [reflexivity|].
+  inversion Hn as [|? ? Hk Hr]; subst. cbn [filter]. unfold nzb at 1. cbn [snd].
+  destruct (qzero q) eqn:E; cbn [negb].
+  - destruct (string_dec k v) as [->|Hkv].
+    + rewrite coef_cons_eq. apply qzero_true in E. rewrite E.
+      rewrite coef_notin; [apply Q2R_0|]. intros Hi. apply Hk. eapply keys_filter_incl. exact Hi.
+    + rewrite coef_cons_neq by exact Hkv. apply IH. exact Hr.
+  - destruct (string_dec k v) as [->|Hkv].
+    + rewrite !coef_cons_eq. reflexivity.
+    + rewrite !coef_cons_neq by exact Hkv. apply IH. exact Hr.
+Qed.
+
+(* finite sums over variable lists *)
+Definition sumf (f : var -> R) (vs : list var) : R := fold_right (fun v acc => f v + acc) 0 vs.
+Lemma sumf_cons f v vs : sumf f (v :: vs) = f v + sumf f vs.
+Proof. reflexivity. Qed.
+Lemma sumf_ext f g vs : (forall v, In v vs -> f v = g v) -> sumf f vs = sumf g vs.
+Proof.
+  induction vs as [|x r IH]; intros H; [reflexivity|].
+  rewrite !sumf_cons, IH, (H x); [reflexivity|left; reflexivity|].
+  intros v Hv. apply H. right. exact Hv.
+Qed.
+Lemma sumf_plus f g vs : sumf (fun v => f v + g v) vs = sumf f vs + sumf g vs.
+Proof. induction vs as [|x r IH]; [cbn; lra|]. rewrite !sumf_cons, IH. lra. Qed.
+Lemma sumf_scale c f vs : sumf (fun v => c * f v) vs = c * sumf f vs.
+Proof. induction vs as [|x r IH]; [cbn; lra|]. rewrite !sumf_cons, IH. lra. Qed.
+Lemma sumf_single_notin k c vs :
+  ~ In k vs -> sumf (fun v => if String.eqb k v then c else 0) vs = 0.
+Proof.
+  induction vs as [|x r IH]; intros H; [reflexivity|]. rewrite sumf_cons, IH.
+  - destruct (String.eqb k x) eqn:E; [|lra]. apply String.eqb_eq in E. subst. exfalso. apply H. left. reflexivity.
+  - intros Hi. apply H. right. exact Hi.
+Qed.
+Lemma sumf_single k c vs :
+  NoDup vs -> In k vs -> sumf (fun v => if String.eqb k v then c else 0) vs = c.
+Proof.
+  induction 1 as [|x r Hx Hr IH]; intros Hi; [destruct Hi|]. rewrite sumf_cons.
+  destruct Hi as [->|Hi].
+  - rewrite String.eqb_refl, sumf_single_notin by exact Hx. lra.
+  - rewrite IH by exact Hi. destruct (String.eqb k x) eqn:E; [|lra].
+    apply String.eqb_eq in E. subst. contradiction.
+Qed.
+
+Lemma lin_coef_sum l vs :
+  NoDup (keys l) -> NoDup vs -> (forall x, In x (keys l) -> In x vs) ->
+  lin rho l = sumf (fun v => Q2R (coef l v) * rho v) vs.
+Proof.
+  intros Hn Hvs. induction l as [|[k q] r IH]; intros Hsub.
+  - cbn [lin]. rewrite (sumf_ext _ (fun v => 0 * rho v)).
+    + rewrite sumf_scale. lra.
+    + intros v _. rewrite coef_nil, Q2R_0. reflexivity.
+  - inversion Hn as [|? ? Hk Hr]; subst. rewrite lin_cons, (IH Hr).
+    + rewrite (sumf_ext (fun v => Q2R (coef ((k, q) :: r) v) * rho v)
+                 (fun v => (if String.eqb k v then Q2R q * rho k else 0) + Q2R (coef r v) * rho v)).
+      * rewrite sumf_plus, sumf_single; [reflexivity|exact Hvs|]. apply Hsub. left. reflexivity.
+      * intros v _. destruct (String.eqb k v) eqn:E.
+        -- apply String.eqb_eq in E. subst. rewrite coef_cons_eq, (coef_notin r v Hk), Q2R_0. lra.
+        -- apply String.eqb_neq in E. rewrite coef_cons_neq by exact E. lra.
+    + intros x Hx. apply Hsub. right. exact Hx.
+Qed.
+
+Lemma lin_get_coefficient t vs :
+  wft t -> NoDup vs -> (forall x, In x (term_vars_p t) -> In x vs) ->
+  lin rho (tvars t) = fold_right (fun v acc => (Q2R (get_coefficient t v) * rho v + acc)%R) 0%R vs.
+Proof.
+  intros Ht Hvs Hsub.
+  change (lin rho (tvars t) = sumf (fun v => Q2R (get_coefficient t v) * rho v) vs).
+  rewrite (lin_coef_sum (tvars t) vs Ht Hvs Hsub). apply sumf_ext.
+  intros v _. rewrite get_coefficient_coef. reflexivity.
+Qed.
+
+Lemma lin_map_var (h : var -> Q) vl :
+  lin rho (map (fun v => (v, h v)) vl) = sumf (fun v => Q2R (h v) * rho v) vl.
+Proof. induction vl as [|x r IH]; [reflexivity|]. cbn [map]. rewrite lin_cons, sumf_cons, IH. reflexivity. Qed.
+
+Lemma lin_ext_keys (rho2 : val) l :
+  (forall x, In x (keys l) -> rho x = rho2 x) -> lin rho l = lin rho2 l.
+Proof.
+  induction l as [|[k q] r IH]; intros H; [reflexivity|].
+  cbn [lin]. rewrite IH, (H k); [reflexivity|left; reflexivity|].
+  intros x Hx. apply H. right. exact Hx.
+Qed.
+
+(** ** add *)
+Lemma lin_add t1 t2 :
+  wft t1 -> wft t2 ->
+  lin rho (tvars (term_add t1 t2)) = lin rho (tvars t1) + lin rho (tvars t2).
+Proof.
+  intros H1 H2. unfold term_add. rewrite lin_mk_term, lin_map_var.
+  set (vl := list_union (term_vars_p t1) (term_vars_p t2)).
+  assert (Hvl : NoDup vl) by (apply NoDup_list_union; assumption).
+  rewrite (lin_coef_sum (tvars t1) vl H1 Hvl), (lin_coef_sum (tvars t2) vl H2 Hvl).
+  - rewrite <- sumf_plus. apply sumf_ext. intros v _.
+    rewrite Q2R_qadd, !get_coefficient_coef. lra.
+  - intros x Hx. apply in_list_union. right. exact Hx.
+  - intros x Hx. apply in_list_union. left. exact Hx.
+Qed.
+Lemma const_add t1 t2 : Q2R (tconst (term_add t1 t2)) = Q2R (tconst t1) + Q2R (tconst t2).
+Proof. unfold term_add. rewrite mk_term_const. apply Q2R_qadd. Qed.
+
+(** ** multiply *)
+Lemma lin_map_mul f l : lin rho (map (fun p => (fst p, qmul f (snd p))) l) = Q2R f * lin rho l.
+Proof.
+  induction l as [|[k q] r IH]; [cbn [map lin]; lra|].
+  cbn [map fst snd]. rewrite !lin_cons, IH, Q2R_qmul. lra.
+Qed.
+Lemma lin_multiply t f : lin rho (tvars (term_multiply t f)) = Q2R f * lin rho (tvars t).
+Proof. unfold term_multiply. rewrite lin_mk_term. apply lin_map_mul. Qed.
+Lemma const_multiply t f : Q2R (tconst (term_multiply t f)) = Q2R f * Q2R (tconst t).
+Proof. unfold term_multiply. rewrite mk_term_const. apply Q2R_qmul. Qed.
+
+(** ** remove_variable *)
+Lemma filter_comm {A} (f g : A -> bool) l : filter f (filter g l) = filter g (filter f l).
+Proof.
+  induction l as [|x r IH]; [reflexivity|]. simpl.
+  destruct (f x) eqn:Ef, (g x) eqn:Eg; simpl; rewrite ?Ef, ?Eg, IH; reflexivity.
+Qed.
+Lemma lin_remove_variable t v :
+  wft t ->
+  lin rho (tvars (term_remove_variable t v)) = lin rho (tvars t) - Q2R (get_coefficient t v) * rho v.
+Proof.
+  intros Ht. unfold term_remove_variable. destruct (contains_var t v) eqn:E.
+  - cbn [tvars]. unfold term_copy. rewrite mk_term_vars. unfold dict_pop.
+    rewrite filter_comm. rewrite lin_filter_nz. rewrite get_coefficient_coef.
+    apply (lin_dict_pop (tvars t) v Ht).
+  - apply contains_var_notin in E. rewrite (get_coefficient_notin t v E), Q2R_0.
+    unfold term_copy. rewrite lin_mk_term. lra.
+Qed.
+Lemma const_remove_variable t v : tconst (term_remove_variable t v) = tconst t.
+Proof. unfold term_remove_variable. destruct (contains_var t v); reflexivity. Qed.
+Lemma vars_remove_variable t v : ~ In v (term_vars_p (term_remove_variable t v)).
+Proof.
+  unfold term_remove_variable. destruct (contains_var t v) eqn:E.
+  - unfold term_vars_p. cbn [tvars]. rewrite in_keys_dict_pop. tauto.
+  - apply contains_var_notin in E. intros H. apply E. unfold term_vars_p in *.
+    unfold term_copy in H. rewrite mk_term_vars in H. eapply keys_filter_incl. exact H.
+Qed.
+
+(** ** substitute_variable *)
+Lemma substitute_sem t v s :
+  wft t -> wft s ->
+  let t' := term_substitute_variable t v s in
+  (lin rho (tvars t') - Q2R (tconst t'))%R =
+  (lin rho (tvars t) - Q2R (tconst t)
+   + Q2R (get_coefficient t v) * ((lin rho (tvars s) - Q2R (tconst s)) - rho v))%R.
+Proof.
+  intros Ht Hs. cbv zeta. unfold term_substitute_variable. destruct (contains_var t v) eqn:E.
+  - rewrite lin_add by (first [apply wft_remove_variable; exact Ht|apply wft_multiply; exact Hs]).
+    rewrite const_add, lin_remove_variable by exact Ht.
+    rewrite lin_multiply, const_multiply, const_remove_variable. lra.
+  - apply contains_var_notin in E. rewrite (get_coefficient_notin t v E), Q2R_0.
+    unfold term_copy. rewrite lin_mk_term, mk_term_const. lra.
+Qed.
+Lemma substitute_sat t v s :
+  wft t -> wft s ->
+  let t' := term_substitute_variable t v s in
+  rho v = (lin rho (tvars s) - Q2R (tconst s))%R -> (sat rho t' <-> sat rho t).
+Proof.
+  intros Ht Hs t' Hv. pose proof (substitute_sem t v s Ht Hs) as H. cbv zeta in H. fold t' in H.
+  unfold sat. rewrite <- Hv in H. split; intros Hsat; nra.
+Qed.
+
+(** ** isolate_variable *)
+Lemma lin_map_div a l :
+  ~ (a == 0)%Q ->
+  lin rho (map (fun p => (fst p, qdiv (qneg (snd p)) a)) l) = - lin rho l / Q2R a.
+Proof.
+  intros Ha. assert (HaR : Q2R a <> 0) by (apply Q2R_neq0; exact Ha).
+  induction l as [|[k q] r IH]; cbn [map lin fst snd].
+  - field. exact HaR.
+  - rewrite IH, Q2R_qdiv, Q2R_qneg by exact Ha. field. exact HaR.
+Qed.
+Lemma coef_nonzero l v : nzl l -> In v (keys l) -> ~ (coef l v == 0)%Q.
+Proof.
+  intros Hnz Hv. destruct (assoc_in_keys v l Hv) as [q Hq]. unfold coef. rewrite Hq.
+  apply assoc_some_in in Hq. unfold nzl in Hnz. rewrite Forall_forall in Hnz.
+  apply (Hnz (v, q) Hq).
+Qed.
+Lemma isolate_sem t v s :
+  wft' t -> term_isolate_variable t v = inl s ->
+  let a := get_coefficient t v in
+  ~ (a == 0)%Q /\ ~ In v (term_vars_p s) /\
+  lin rho (tvars s) = (- (lin rho (tvars t) - Q2R a * rho v) / Q2R a)%R /\
+  Q2R (tconst s) = (Q2R (tconst t) / Q2R a)%R.
+Proof.
+  intros [Ht Hnz]. unfold term_isolate_variable.
+  destruct (py_in v (term_vars_p t)) eqn:E; cbn [negb]; [|discriminate].
+  apply py_in_var in E. unfold ret. intros H. inversion H as [Hs]. clear H. cbv zeta.
+  assert (Ha : ~ (get_coefficient t v == 0)%Q).
+  { rewrite get_coefficient_coef. apply coef_nonzero; assumption. }
+  split; [exact Ha|]. split; [|split].
+  - unfold term_vars_p. rewrite mk_term_vars. intros Hi. apply keys_filter_incl in Hi.
+    rewrite (keys_map_snd (fun p => qdiv (qneg (snd p)) (get_coefficient t v))) in Hi.
+    apply (in_keys_dict_pop (tvars t) v v) in Hi. tauto.
+  - rewrite lin_mk_term, (lin_map_div _ _ Ha).
+    change (filter (fun p : string * Q => negb (String.eqb (fst p) v)) (tvars t)) with (dict_pop (tvars t) v).
+    rewrite (lin_dict_pop (tvars t) v Ht), <- get_coefficient_coef. reflexivity.
+  - rewrite mk_term_const. apply Q2R_qdiv. exact Ha.
+Qed.
+Lemma isolate_error t v e :
+  term_isolate_variable t v = inr e -> e = ValueErr /\ ~ In v (term_vars_p t).
+Proof.
+  unfold term_isolate_variable. destruct (py_in v (term_vars_p t)) eqn:E; cbn [negb].
+  - unfold ret. discriminate.
+  - unfold raise. intros H. inversion H. split; [reflexivity|]. apply py_in_var_false. exact E.
+Qed.
+
+End Meaning.
+
+(* ------------------------------------------------------------------ *)
+(** * Equality (__eq__) — property C19 *)
+Lemma keys_equal_iff l1 l2 :
+  keys_equal l1 l2 = true <-> (forall v, In v (keys l1) <-> In v (keys l2)).
+Proof.
+  unfold keys_equal. rewrite andb_true_iff, !forallb_forall. split.
+  - intros [H1 H2] v. split; intros H; apply has_key_in; [apply H1|apply H2]; exact H.
+  - intros H. split; intros x Hx; apply has_key_in; apply H; exact Hx.
+Qed.
+
+Definition cmatch (l2 : pvars) (p : var * Q) : bool :=
+  match assoc (fst p) l2 with Some q => Qeq_bool (snd p) q | None => false end.
+Lemma forallb_cmatch l1 l2 :
+  NoDup (keys l1) -> (forall v, In v (keys l1) -> In v (keys l2)) ->
+  (forallb (cmatch l2) l1 = true <-> forall v, In v (keys l1) -> (coef l1 v == coef l2 v)%Q).
+Proof.
+  intros Hn Hsub. rewrite forallb_forall. split.
+  - intros H v Hv. apply in_keys_ex in Hv. destruct Hv as [q Hq].
+    specialize (H (v, q) Hq). unfold cmatch in H. cbn [fst snd] in H.
+    rewrite (coef_in l1 v q Hn Hq). unfold coef.
+    destruct (assoc v l2) as [q'|]; [|discriminate]. apply Qeq_bool_eq. exact H.
+  - intros H [k q] Hp. unfold cmatch. cbn [fst snd].
+    assert (Hk : In k (keys l1)) by (eapply in_keys; exact Hp).
+    specialize (H k Hk). rewrite (coef_in l1 k q Hn Hp) in H.
+    destruct (assoc_in_keys k l2 (Hsub k Hk)) as [q' Hq']. unfold coef in H. rewrite Hq' in *.
+    apply Qeq_eq_bool. exact H.
+Qed.
+
+Lemma term_eqb_unfold t1 t2 :
+  term_eqb_p t1 t2 =
+  keys_equal (tvars t1) (tvars t2) && forallb (cmatch (tvars t2)) (tvars t1)
+  && Qeq_bool (tconst t1) (tconst t2).
+Proof. reflexivity. Qed.
+
+Lemma term_eqb_coeff t1 t2 :
+  wft t1 -> wft t2 ->
+  (term_eqb_p t1 t2 = true <->
+   (forall v, In v (term_vars_p t1) <-> In v (term_vars_p t2)) /\
+   (forall v, (get_coefficient t1 v == get_coefficient t2 v)%Q) /\
+   (tconst t1 == tconst t2)%Q).
+Proof.
+  intros H1 H2. rewrite term_eqb_unfold, !andb_true_iff, keys_equal_iff, Qeq_bool_iff.
+  unfold term_vars_p. split.
+  - intros [[Hk Hf] Hc]. split; [exact Hk|]. split; [|exact Hc].
+    intros v. rewrite !get_coefficient_coef.
+    destruct (in_dec string_dec v (keys (tvars t1))) as [Hi|Hi].
+    + revert v Hi. apply forallb_cmatch; [exact H1| |exact Hf]. intros v Hv. apply Hk. exact Hv.
+    + rewrite (coef_notin _ _ Hi). rewrite coef_notin; [reflexivity|]. intros Hi2. apply Hi. apply Hk. exact Hi2.
+  - intros [Hk [Hg Hc]]. split; [split|]; [exact Hk| |exact Hc].
+    apply forallb_cmatch; [exact H1|intros v Hv; apply Hk; exact Hv|].
+    intros v _. rewrite <- !get_coefficient_coef. apply Hg.
+Qed.
+
+Lemma term_eqb_sound t1 t2 :
+  wft t1 -> wft t2 -> term_eqb_p t1 t2 = true ->
+  forall rho, lin rho (tvars t1) = lin rho (tvars t2) /\ Q2R (tconst t1) = Q2R (tconst t2).
+Proof.
+  intros H1 H2 He rho. apply (term_eqb_coeff t1 t2 H1 H2) in He. destruct He as [Hk [Hg Hc]].
+  split; [|apply Qeq_eqR; exact Hc].
+  rewrite (lin_coef_sum rho (tvars t1) (keys (tvars t1)) H1 H1) by tauto.
+  rewrite (lin_coef_sum rho (tvars t2) (keys (tvars t1)) H2 H1) by (intros x Hx; apply Hk; exact Hx).
+  apply sumf_ext. intros v _. rewrite <- !get_coefficient_coef. rewrite (Qeq_eqR _ _ (Hg v)). reflexivity.
+Qed.
+Lemma term_eqb_sat t1 t2 :
+  wft t1 -> wft t2 -> term_eqb_p t1 t2 = true -> forall rho, sat rho t1 <-> sat rho t2.
+Proof.
+  intros H1 H2 He rho. destruct (term_eqb_sound t1 t2 H1 H2 He rho) as [Hl Hc].
+  unfold sat. rewrite Hl, Hc. tauto.
+Qed.
+
+Lemma term_eqb_refl t : wft t -> term_eqb_p t t = true.
+Proof.
+  intros H. apply term_eqb_coeff; [exact H|exact H|].
+  split; [tauto|]. split; [intros v|]; reflexivity.
+Qed.
+Lemma term_eqb_sym_true t1 t2 :
+  wft t1 -> wft t2 -> term_eqb_p t1 t2 = true -> term_eqb_p t2 t1 = true.
+Proof.
+  intros H1 H2 He. apply (term_eqb_coeff t1 t2 H1 H2) in He. destruct He as [Hk [Hg Hc]].
+  apply term_eqb_coeff; [exact H2|exact H1|]. split; [|split].
+  - intros v. symmetry. apply Hk.
+  - intros v. symmetry. apply Hg.
+  - symmetry. exact Hc.
+Qed.
+Lemma term_eqb_sym t1 t2 : wft t1 -> wft t2 -> term_eqb_p t1 t2 = term_eqb_p t2 t1.
+Proof.
+  intros H1 H2. destruct (term_eqb_p t1 t2) eqn:E1; destruct (term_eqb_p t2 t1) eqn:E2; try reflexivity.
+  - rewrite (term_eqb_sym_true t1 t2 H1 H2 E1) in E2. discriminate.
+  - rewrite (term_eqb_sym_true t2 t1 H2 H1 E2) in E1. discriminate.
+Qed.
+Lemma term_eqb_trans t1 t2 t3 :
+  wft t1 -> wft t2 -> wft t3 ->
+  term_eqb_p t1 t2 = true -> term_eqb_p t2 t3 = true -> term_eqb_p t1 t3 = true.
+Proof.
+  intros H1 H2 H3 E12 E23.
+  apply (term_eqb_coeff t1 t2 H1 H2) in E12. destruct E12 as [Hk [Hg Hc]].
+  apply (term_eqb_coeff t2 t3 H2 H3) in E23. destruct E23 as [Hk' [Hg' Hc']].
+  apply term_eqb_coeff; [exact H1|exact H3|]. split; [|split].
+  - intros v. rewrite (Hk v). apply Hk'.
+  - intros v. eapply Qeq_trans; [apply Hg|apply Hg'].
+  - eapply Qeq_trans; [apply Hc|apply Hc'].
+Qed.
+
+Lemma term_copy_id t : Forall (fun p => ~ (snd p == 0)%Q) (tvars t) -> term_copy t = t.
+Proof.
+  intros H. destruct t as [l c]. unfold term_copy, mk_term. cbn [tvars tconst] in *.
+  f_equal. apply (filter_nzb_id l H).
+Qed.
+Lemma term_eqb_copy t : wft' t -> term_eqb_p (term_copy t) t = true.
+Proof. intros [H Hnz]. rewrite (term_copy_id t Hnz). apply term_eqb_refl. exact H. Qed.
+
+(* ------------------------------------------------------------------ *)
+(** * Hashing: equal terms have equal keys *)
+Lemma ascii_cmp_eq a b : ascii_cmp a b = Eq <-> a = b.
+Proof.
+  unfold ascii_cmp. rewrite N.compare_eq_iff. split; [|intros ->; reflexivity].
+  intros H. rewrite <- (ascii_N_embedding a), <- (ascii_N_embedding b), H. reflexivity.
+Qed.
+Lemma ascii_cmp_antisym a b : ascii_cmp a b = CompOpp (ascii_cmp b a).
+Proof. unfold ascii_cmp. apply N.compare_antisym. Qed.
+Lemma ascii_cmp_lt_trans a b c : ascii_cmp a b = Lt -> ascii_cmp b c = Lt -> ascii_cmp a c = Lt.
+Proof. unfold ascii_cmp. rewrite !N.compare_lt_iff. apply N.lt_trans. Qed.
+
+Lemma string_cmp_eq s1 s2 : string_cmp s1 s2 = Eq <-> s1 = s2.
+Proof.
+  revert s2. induction s1 as [|a r IH]; intros [|b r2]; cbn [string_cmp];
+    try (split; [reflexivity|reflexivity]); try (split; discriminate).
+  destruct (ascii_cmp a b) eqn:E.
+  - apply ascii_cmp_eq in E. subst. rewrite IH. split; [intros ->; reflexivity|].
+    intros H. inversion H. reflexivity.
+  - split; [discriminate|]. intros H. inversion H. subst.
+    assert (ascii_cmp b b = Eq) by (apply ascii_cmp_eq; reflexivity). congruence.
+  - split; [discriminate|]. intros H. inversion H. subst.
+    assert (ascii_cmp b b = Eq) by (apply ascii_cmp_eq; reflexivity). congruence.
+Qed.
+Lemma string_cmp_refl s : string_cmp s s = Eq.
+Proof. apply string_cmp_eq. reflexivity. Qed.
+Lemma string_cmp_antisym s1 s2 : string_cmp s1 s2 = CompOpp (string_cmp s2 s1).
+Proof.
+  revert s2. induction s1 as [|a r IH]; intros [|b r2]; cbn [string_cmp]; try reflexivity.
+  rewrite (ascii_cmp_antisym a b). destruct (ascii_cmp b a); cbn [CompOpp]; [apply IH|reflexivity|reflexivity].
+Qed.
+Lemma string_cmp_lt_trans s1 s2 s3 :
+  string_cmp s1 s2 = Lt -> string_cmp s2 s3 = Lt -> string_cmp s1 s3 = Lt.
+Proof.
+  revert s2 s3. induction s1 as [|a r IH]; intros [|b r2] [|c r3]; cbn [string_cmp];
+    try discriminate; try reflexivity.
+  destruct (ascii_cmp a b) eqn:Eab.
+  - apply ascii_cmp_eq in Eab. subst. destruct (ascii_cmp b c); [apply IH|reflexivity|discriminate].
+  - intros _. destruct (ascii_cmp b c) eqn:Ebc.
+    + apply ascii_cmp_eq in Ebc. subst. rewrite Eab. reflexivity.
+    + intros _. rewrite (ascii_cmp_lt_trans a b c Eab Ebc). reflexivity.
+    + discriminate.
+  - discriminate.
+Qed.
+
+Lemma string_leb_iff s1 s2 : string_leb s1 s2 = true <-> string_cmp s1 s2 = Lt \/ s1 = s2.
+Proof.
+  unfold string_leb. rewrite <- string_cmp_eq.
+  destruct (string_cmp s1 s2); split; intros H; try reflexivity; try tauto; try discriminate.
+  destruct H; discriminate.
+Qed.
+Lemma string_leb_refl s : string_leb s s = true.
+Proof. apply string_leb_iff. right. reflexivity. Qed.
+Lemma string_leb_trans s1 s2 s3 :
+  string_leb s1 s2 = true -> string_leb s2 s3 = true -> string_leb s1 s3 = true.
+Proof.
+  rewrite !string_leb_iff. intros [H1| ->] [H2| ->]; try tauto.
+  left. eapply string_cmp_lt_trans; eassumption.
+Qed.
+Lemma string_leb_antisym s1 s2 : string_leb s1 s2 = true -> string_leb s2 s1 = true -> s1 = s2.
+Proof.
+  unfold string_leb. rewrite (string_cmp_antisym s2 s1).
+  destruct (string_cmp s1 s2) eqn:E; cbn [CompOpp]; try discriminate.
+  intros _ _. apply string_cmp_eq. exact E.
+Qed.
+Lemma string_leb_total s1 s2 : string_leb s1 s2 = false -> string_leb s2 s1 = true.
+Proof.
+  unfold string_leb. rewrite (string_cmp_antisym s2 s1).
+  destruct (string_cmp s1 s2); cbn [CompOpp]; try discriminate. reflexivity.
+Qed.
+
+Definition ple (p q : var * Q) : Prop := string_leb (fst p) (fst q) = true.
+
+Lemma insert_perm p l : Permutation (insert_by_name p l) (p :: l).
+Proof.
+  induction l as [|q r IH]; cbn [insert_by_name]; [apply Permutation_refl|].
+  destruct (string_leb (fst q) (fst p)); [|apply Permutation_refl].
+  eapply Permutation_trans; [apply perm_skip; exact IH|apply perm_swap].
+Qed.
+Lemma insert_sorted p l : StronglySorted ple l -> StronglySorted ple (insert_by_name p l).
+Proof.
+  induction l as [|q r IH]; cbn [insert_by_name]; intros Hs.
+  - constructor; [constructor|constructor].
+  - inversion Hs as [|? ? Hr Hq]; subst. destruct (string_leb (fst q) (fst p)) eqn:E.
+    + constructor; [apply IH; exact Hr|]. apply Forall_forall. intros x Hx.
+      apply (Permutation_in _ (insert_perm p r)) in Hx. destruct Hx as [<-|Hx]; [exact E|].
+      rewrite Forall_forall in Hq. apply Hq. exact Hx.
+    + apply string_leb_total in E. constructor; [exact Hs|]. constructor; [exact E|].
+      rewrite Forall_forall in *. intros x Hx. unfold ple. eapply string_leb_trans; [exact E|].
+      apply Hq. exact Hx.
+Qed.
+Lemma fold_insert_perm l acc :
+  Permutation (fold_left (fun acc p => insert_by_name p acc) l acc) (l ++ acc).
+Proof.
+  revert acc. induction l as [|p r IH]; intros acc; cbn [fold_left app]; [apply Permutation_refl|].
+  eapply Permutation_trans; [apply IH|]. eapply Permutation_trans.
+  - apply Permutation_app_head. apply insert_perm.
+  - apply Permutation_sym. apply Permutation_middle.
+Qed.
+Lemma fold_insert_sorted l acc :
+  StronglySorted ple acc -> StronglySorted ple (fold_left (fun acc p => insert_by_name p acc) l acc).
+Proof.
+  revert acc. induction l as [|p r IH]; intros acc Hs; cbn [fold_left]; [exact Hs|].
+  apply IH. apply insert_sorted. exact Hs.
+Qed.
+Lemma sort_perm l : Permutation (sort_by_name l) l.
+Proof.
+  unfold sort_by_name. eapply Permutation_trans; [apply fold_insert_perm|].
+  rewrite app_nil_r. apply Permutation_refl.
+Qed.
+Lemma sort_sorted l : StronglySorted ple (sort_by_name l).
+Proof. unfold sort_by_name. apply fold_insert_sorted. constructor. Qed.
+
+Lemma perm_keys l l' : Permutation l l' -> Permutation (keys l) (keys l').
+Proof. intros H. unfold keys. apply Permutation_map. exact H. Qed.
+Lemma coef_perm l l' v : Permutation l l' -> NoDup (keys l) -> coef l v = coef l' v.
+Proof.
+  intros Hp Hn. assert (Hn' : NoDup (keys l')) by (eapply Permutation_NoDup; [apply perm_keys; exact Hp|exact Hn]).
+  destruct (in_dec string_dec v (keys l)) as [Hi|Hi].
+  - apply in_keys_ex in Hi. destruct Hi as [q Hq].
+    rewrite (coef_in l v q Hn Hq). symmetry. apply coef_in; [exact Hn'|].
+    eapply Permutation_in; eassumption.
+  - rewrite (coef_notin l v Hi). symmetry. apply coef_notin. intros Hi'. apply Hi.
+    eapply Permutation_in; [apply Permutation_sym; apply perm_keys; exact Hp|exact Hi'].
+Qed.
+
+Lemma sorted_head_le (p : var * Q) r x :
+  Forall (ple p) r -> In x (keys (p :: r)) -> string_leb (fst p) x = true.
+Proof.
+  intros Hf [<-|Hx]; [apply string_leb_refl|].
+  unfold keys in Hx. apply in_map_iff in Hx. destruct Hx as [y [<- Hy]].
+  rewrite Forall_forall in Hf. apply Hf. exact Hy.
+Qed.
+Lemma sorted_keys_unique m1 m2 :
+  StronglySorted ple m1 -> StronglySorted ple m2 -> NoDup (keys m1) -> NoDup (keys m2) ->
+  (forall v, In v (keys m1) <-> In v (keys m2)) -> keys m1 = keys m2.
+Proof.
+  revert m2. induction m1 as [|p1 r1 IH]; intros [|p2 r2] S1 S2 N1 N2 Hk.
+  - reflexivity.
+  - exfalso. apply (proj2 (Hk (fst p2))). left. reflexivity.
+  - exfalso. apply (proj1 (Hk (fst p1))). left. reflexivity.
+  - inversion S1 as [|? ? S1' F1]; subst. inversion S2 as [|? ? S2' F2]; subst.
+    change (keys (p1 :: r1)) with (fst p1 :: keys r1) in N1 |- *.
+    change (keys (p2 :: r2)) with (fst p2 :: keys r2) in N2 |- *.
+    inversion N1 as [|? ? Hn1 N1']; subst. inversion N2 as [|? ? Hn2 N2']; subst.
+    assert (E : fst p1 = fst p2).
+    { apply string_leb_antisym.
+      - apply (sorted_head_le p1 r1 (fst p2) F1). apply Hk. left. reflexivity.
+      - apply (sorted_head_le p2 r2 (fst p1) F2). apply Hk. left. reflexivity. }
+    f_equal; [exact E|]. apply IH; try assumption.
+    intros v. split; intros Hv.
+    + assert (H : In v (keys (p2 :: r2))) by (apply Hk; right; exact Hv).
+      destruct H as [H|H]; [|exact H]. exfalso. apply Hn1. rewrite E, H. exact Hv.
+    + assert (H : In v (keys (p1 :: r1))) by (apply Hk; right; exact Hv).
+      destruct H as [H|H]; [|exact H]. exfalso. apply Hn2. rewrite <- E, H. exact Hv.
+Qed.
+
+Definition kred (p : var * Q) : var * Q := (fst p, Qred (snd p)).
+Lemma map_fst_kred m : map fst (map kred m) = keys m.
+Proof. apply (keys_map_snd (fun p => Qred (snd p))). Qed.
+Lemma list_eqb_var_refl (l : list var) : list_eqb l l = true.
+Proof. induction l as [|x r IH]; [reflexivity|]. cbn. rewrite String.eqb_refl. exact IH. Qed.
+Lemma key_match m1 m2 :
+  keys m1 = keys m2 -> NoDup (keys m1) -> (forall v, (coef m1 v == coef m2 v)%Q) ->
+  forallb (fun pq : (var * Q) * (var * Q) => Qeq_bool (snd (fst pq)) (snd (snd pq)))
+          (combine (map kred m1) (map kred m2)) = true.
+Proof.
+  revert m2. induction m1 as [|[k1 q1] r1 IH]; intros [|[k2 q2] r2] Hk Hn Hc; try reflexivity; try discriminate.
+  rewrite !keys_cons in Hk. inversion Hk as [[Hk1 Hk2]]. subst k2.
+  rewrite keys_cons in Hn. inversion Hn as [|? ? Hn1 Hn']; subst.
+  cbn [map combine forallb kred fst snd]. apply andb_true_iff. split.
+  - apply Qeq_eq_bool. rewrite !Qred_correct. specialize (Hc k1). rewrite !coef_cons_eq in Hc. exact Hc.
+  - apply IH; [exact Hk2|exact Hn'|]. intros v. destruct (string_dec k1 v) as [<-|Hv].
+    + rewrite (coef_notin r1 k1 Hn1). rewrite coef_notin; [reflexivity|]. rewrite <- Hk2. exact Hn1.
+    + specialize (Hc v). rewrite !coef_cons_neq in Hc by exact Hv. exact Hc.
+Qed.
+
+Lemma term_key_unfold t :
+  term_key t = (map kred (sort_by_name (tvars t)), Qred (tconst t)).
+Proof. reflexivity. Qed.
+
+Lemma term_eqb_key t1 t2 :
+  wft t1 -> wft t2 -> term_eqb_p t1 t2 = true -> key_eqb (term_key t1) (term_key t2) = true.
+Proof.
+  intros H1 H2 He. apply (term_eqb_coeff t1 t2 H1 H2) in He. destruct He as [Hk [Hg Hc]].
+  rewrite !term_key_unfold. unfold key_eqb. cbn [fst snd].
+  set (m1 := sort_by_name (tvars t1)). set (m2 := sort_by_name (tvars t2)).
+  assert (P1 : Permutation m1 (tvars t1)) by apply sort_perm.
+  assert (P2 : Permutation m2 (tvars t2)) by apply sort_perm.
+  assert (N1 : NoDup (keys m1)).
+  { eapply Permutation_NoDup; [apply perm_keys; apply Permutation_sym; exact P1|exact H1]. }
+  assert (N2 : NoDup (keys m2)).
+  { eapply Permutation_NoDup; [apply perm_keys; apply Permutation_sym; exact P2|exact H2]. }
+  assert (K : keys m1 = keys m2).
+  { apply sorted_keys_unique; try assumption; try apply sort_sorted.
+    intros v. split; intros Hv.
+    - eapply Permutation_in; [apply perm_keys; apply Permutation_sym; exact P2|].
+      apply Hk. eapply Permutation_in; [apply perm_keys; exact P1|exact Hv].
+    - eapply Permutation_in; [apply perm_keys; apply Permutation_sym; exact P1|].
+      apply Hk. eapply Permutation_in; [apply perm_keys; exact P2|exact Hv]. }
+  rewrite !andb_true_iff. split; [split|].
+  - rewrite !map_fst_kred, K. apply list_eqb_var_refl.
+  - apply key_match; [exact K|exact N1|]. intros v.
+    rewrite (coef_perm m1 (tvars t1) v P1 N1), (coef_perm m2 (tvars t2) v P2 N2).
+    rewrite <- !get_coefficient_coef. apply Hg.
+  - apply Qeq_eq_bool. rewrite !Qred_correct. exact Hc.
+Qed.
+
+(* ------------------------------------------------------------------ *)
+(** * Renaming — property C16 *)
+Lemma rename_unfold t s u :
+  term_rename_variable t s u =
+  if py_in s (term_vars_p t) then
+    let vars1 := if negb (py_in u (term_vars_p t))
+                 then dict_set (tvars (term_copy t)) u 0%Q else tvars (term_copy t) in
+    term_remove_variable
+      (mkT (dict_set vars1 u (qadd (coef vars1 u) (coef vars1 s))) (tconst t)) s
+  else term_copy t.
+Proof. reflexivity. Qed.
+
+Lemma lin_update rho s x l :
+  NoDup (keys l) ->
+  lin (fun v => if String.eqb v s then x else rho v) l = lin rho l + Q2R (coef l s) * (x - rho s).
+Proof.
+  induction l as [|[k q] r IH]; intros Hn.
+  - cbn [lin]. rewrite coef_nil, Q2R_0. lra.
+  - inversion Hn as [|? ? Hk Hr]; subst. cbn [lin]. rewrite (IH Hr).
+    destruct (String.eqb k s) eqn:E.
+    + apply String.eqb_eq in E. subst. rewrite coef_cons_eq, (coef_notin r s Hk), Q2R_0. lra.
+    + apply String.eqb_neq in E. rewrite coef_cons_neq by exact E. lra.
+Qed.
+
+Lemma const_rename t s u : tconst (term_rename_variable t s u) = tconst t.
+Proof.
+  rewrite rename_unfold. destruct (py_in s (term_vars_p t)); [|reflexivity].
+  cbv zeta. rewrite const_remove_variable. reflexivity.
+Qed.
+
+Lemma lin_rename rho t s u :
+  wft t -> s <> u ->
+  lin rho (tvars (term_rename_variable t s u)) =
+  lin rho (tvars t) + Q2R (get_coefficient t s) * (rho u - rho s).
+Proof.
+  intros Ht Hsu. rewrite rename_unfold. destruct (py_in s (term_vars_p t)) eqn:Es.
+  - cbv zeta.
+    set (vars1 := if negb (py_in u (term_vars_p t))
+                  then dict_set (tvars (term_copy t)) u 0%Q else tvars (term_copy t)).
+    assert (Hc : NoDup (keys (tvars (term_copy t)))) by (apply wft_copy; exact Ht).
+    assert (Hn1 : NoDup (keys vars1)).
+    { unfold vars1. destruct (negb (py_in u (term_vars_p t))); [apply NoDup_keys_dict_set|]; exact Hc. }
+    assert (Hl1 : lin rho vars1 = lin rho (tvars t)).
+    { unfold vars1. destruct (py_in u (term_vars_p t)) eqn:Eu; cbn [negb].
+      - apply lin_mk_term.
+      - rewrite lin_dict_set. unfold term_copy at 1. rewrite lin_mk_term.
+        apply py_in_var_false in Eu. rewrite coef_notin, Q2R_0; [lra|].
+        intros Hi. apply Eu. unfold term_copy in Hi. rewrite mk_term_vars in Hi.
+        eapply keys_filter_incl. exact Hi. }
+    assert (Hs1 : Q2R (coef vars1 s) = Q2R (get_coefficient t s)).
+    { rewrite get_coefficient_coef. unfold vars1. destruct (negb (py_in u (term_vars_p t))).
+      - rewrite coef_dict_set_neq by exact Hsu. unfold term_copy. rewrite mk_term_vars.
+        apply coef_filter_nz. exact Ht.
+      - unfold term_copy. rewrite mk_term_vars. apply coef_filter_nz. exact Ht. }
+    rewrite lin_remove_variable by (unfold wft; cbn [tvars]; apply NoDup_keys_dict_set; exact Hn1).
+    rewrite get_coefficient_coef. cbn [tvars].
+    rewrite lin_dict_set, coef_dict_set_neq by exact Hsu.
+    rewrite Q2R_qadd, Hl1, Hs1. lra.
+  - apply py_in_var_false in Es. rewrite (get_coefficient_notin t s Es), Q2R_0.
+    unfold term_copy. rewrite lin_mk_term. lra.
+Qed.
+
+Lemma rename_sem t s u :
+  wft t -> s <> u ->
+  forall rho, sat rho (term_rename_variable t s u) <->
+              sat (fun v => if String.eqb v s then rho u else rho v) t.
+Proof.
+  intros Ht Hsu rho. unfold sat.
+  rewrite (lin_rename rho t s u Ht Hsu), const_rename, (lin_update rho s (rho u) (tvars t) Ht).
+  rewrite get_coefficient_coef. tauto.
+Qed.
+
+Lemma rename_absent t s u : ~ In s (term_vars_p t) -> term_rename_variable t s u = term_copy t.
+Proof.
+  intros H. apply py_in_var_false in H. unfold term_rename_variable. rewrite H. reflexivity.
+Qed.
+
+Lemma in_vars_copy t x : In x (term_vars_p (term_copy t)) -> In x (term_vars_p t).
+Proof.
+  unfold term_vars_p, term_copy. rewrite mk_term_vars. apply keys_filter_incl.
+Qed.
+Lemma in_vars_remove_variable t v x :
+  In x (term_vars_p (term_remove_variable t v)) -> In x (term_vars_p t) /\ x <> v.
+Proof.
+  intros H. split.
+  - revert H. unfold term_remove_variable. destruct (contains_var t v).
+    + unfold term_vars_p. cbn [tvars]. rewrite in_keys_dict_pop. intros [H _].
+      apply in_vars_copy. exact H.
+    + apply in_vars_copy.
+  - intros ->. exact (vars_remove_variable t v H).
+Qed.
+
+(* what is actually true: the source never survives, even when s = u *)
+Lemma rename_vars_strong t s u x :
+  In x (term_vars_p (term_rename_variable t s u)) ->
+  x <> s /\ (In x (term_vars_p t) \/ (x = u /\ In s (term_vars_p t))).
+Proof.
+  rewrite rename_unfold. destruct (py_in s (term_vars_p t)) eqn:Es.
+  - apply py_in_var in Es. cbv zeta.
+    set (vars1 := if negb (py_in u (term_vars_p t))
+                  then dict_set (tvars (term_copy t)) u 0%Q else tvars (term_copy t)).
+    assert (Hv1 : forall y, In y (keys vars1) -> In y (term_vars_p t) \/ y = u).
+    { unfold vars1. destruct (negb (py_in u (term_vars_p t))); intros y Hy.
+      - apply in_keys_dict_set in Hy. destruct Hy as [Hy|Hy]; [left; apply in_vars_copy; exact Hy|right; exact Hy].
+      - left. apply in_vars_copy. exact Hy. }
+    intros Hx. apply in_vars_remove_variable in Hx. destruct Hx as [Hx Hne].
+    split; [exact Hne|]. unfold term_vars_p in Hx. cbn [tvars] in Hx.
+    apply in_keys_dict_set in Hx. destruct Hx as [Hx| ->]; [|right; tauto].
+    apply Hv1 in Hx. destruct Hx as [Hx| ->]; [left; exact Hx|right; tauto].
+  - apply py_in_var_false in Es. intros Hx. apply in_vars_copy in Hx.
+    split; [|left; exact Hx]. intros ->. contradiction.
+Qed.
+
+Lemma rename_vars t s u :
+  wft t -> forall x, In x (term_vars_p (term_rename_variable t s u)) ->
+  (x <> s /\ In x (term_vars_p t)) \/ (x = u /\ In s (term_vars_p t)) \/ (s = u /\ In x (term_vars_p t)).
+Proof.
+  intros _ x Hx. apply rename_vars_strong in Hx. tauto.
+Qed.
+
+(* quirk: rename_variable(x, x) deletes x instead of being the identity *)
+Example rename_same_drops :
+  term_rename_variable (mkT [("x"%string, 1%Q); ("y"%string, 2%Q)] 5%Q) "x"%string "x"%string
+  = mkT [("y"%string, 2%Q)] 5%Q.
+Proof. vm_compute. reflexivity. Qed.
+
+(* ------------------------------------------------------------------ *)
+(** * Counterexamples documenting why hypotheses are needed *)
+Local Open Scope string_scope.
+(* wft_add needs duplicate-free inputs: list_union keeps the duplicates of its first argument *)
+Example wft_add_needs_wft :
+  ~ wft (term_add (mkT [("x", 1%Q); ("x", 1%Q)] 0%Q) (mkT [] 0%Q)).
+Proof.
+  intros H. vm_compute in H. inversion H as [|? ? Hn _]. apply Hn. left. reflexivity.
+Qed.
+(* isolate_sem needs nonzero stored coefficients: with a stored 0 the model divides by 0
+   (Qinv 0 = 0) and returns a term, so [~ a == 0] fails under [wft] alone *)
+Example isolate_needs_nonzero :
+  wft (mkT [("x", 0%Q); ("y", 1%Q)] 1%Q) /\
+  term_isolate_variable (mkT [("x", 0%Q); ("y", 1%Q)] 1%Q) "x" = inl (mkT [] 0%Q) /\
+  get_coefficient (mkT [("x", 0%Q); ("y", 1%Q)] 1%Q) "x" = 0%Q.
+Proof.
+  split; [|split; vm_compute; reflexivity].
+  unfold wft. cbn. constructor; [|constructor; [intros []|constructor]].
+  intros [H|[]]. discriminate.
+Qed.
+(* term_eqb_copy needs nonzero stored coefficients: copy drops the zero entry, keys differ *)
+Example term_eqb_copy_needs_nz :
+  term_eqb_p (term_copy (mkT [("x", 0%Q)] 0%Q)) (mkT [("x", 0%Q)] 0%Q) = false.
+Proof. vm_compute. reflexivity. Qed.
+
+Print Assumptions rename_sem.
+Print Assumptions term_eqb_sound.
+Print Assumptions substitute_sem.
